@@ -65,7 +65,7 @@ def mt_runs(ck, tier):
     kinds: plain (threads on different cores), pinned (same binary, both threads on one CPU, busy polling: timer preemption
     at arbitrary instructions opens the few-instruction windows of prepare_read), tsan, asan"""
     quick = tier == 'quick'
-    n = {'plain': 150000, 'pinned': 400000, 'tsan': 25000, 'asan': 40000} if quick else {'plain': 2000000, 'pinned': 4000000, 'tsan': 300000, 'asan': 1000000}
+    n = {'plain': 150000, 'pinned': 400000, 'tsan': 25000, 'asan': 40000} if quick else {'plain': 1500000, 'pinned': 3000000, 'tsan': 250000, 'asan': 800000}
     flags = {'plain': [], 'pinned': [], 'tsan': ['-fsanitize=thread'], 'asan': ['-fsanitize=address']}
     info = {}
     for kind in ('plain', 'pinned', 'tsan', 'asan'):
@@ -103,7 +103,7 @@ def run(tier):
     iexe, err = ck.build_harness('uq', ['uq.cpp'], flags=WRAP)
     if not iexe:
         ck.violation('no-failing-input-found', 'harness uq.cpp does not compile against /repo: ' + err[-600:]); return ck.finish(trusted=TRUSTED)
-    n = 1500 if tier == 'quick' else 50000
+    n = 1500 if tier == 'quick' else 40000
     fl = flags_from(facts)
     first = [with_flags(c, fl) for c in corpus() + U.boundary_cases()]
     cases = first + [with_flags(c, fl) for c in [U.gen_case(ck.rng) for _ in range(n)] + [U.gen_cycle(ck.rng) for _ in range(n // 4)]]
